@@ -843,6 +843,9 @@ func TestVF_C07(t *testing.T) {
 				c.Label(l)
 			}
 		}
+		if cs.BatchDelayMs > 0 {
+			c.Label("cfg_channel_batching")
+		}
 		kseen := map[string]bool{}
 		for _, k := range out.known {
 			if !kseen[k] {
